@@ -35,18 +35,32 @@ func (obj Symbol) Readably(b []byte, p *Printer) []byte {
 		// The reader takes & as the first character of a token (&optional,
 		// &rest, ...) but not inside one.
 		if needPipeMap[c] == 'x' && (c != '&' || 0 < i) {
-			b = append(b, '|')
-			b = append(b, p.caseName(string(obj))...)
-			return append(b, '|')
+			return appendBarred(b, p.caseName(string(obj)))
 		}
 	}
 	if numberToken(string(obj), 10) || (p.Base != 10 && numberToken(string(obj), int(p.Base))) {
 		// Without the bars the reader would take the name for a number.
-		b = append(b, '|')
-		b = append(b, p.caseName(string(obj))...)
-		return append(b, '|')
+		return appendBarred(b, p.caseName(string(obj)))
 	}
 	return append(b, p.caseName(string(obj))...)
+}
+
+// appendBarred appends the name between bars. A bar or a backslash in the name
+// is escaped with a backslash and control characters the reader does not take
+// inside |...| are written as \u00XX.
+func appendBarred(b []byte, name string) []byte {
+	b = append(b, '|')
+	for _, c := range []byte(name) {
+		switch {
+		case c == '|' || c == '\\':
+			b = append(b, '\\', c)
+		case c < 0x20 && c != '\t' && c != '\n' && c != '\r':
+			b = append(b, '\\', 'u', '0', '0', hexChars[c>>4], hexChars[c&0x0f])
+		default:
+			b = append(b, c)
+		}
+	}
+	return append(b, '|')
 }
 
 // numberToken returns true if the reader would take the token for an integer,
